@@ -227,3 +227,9 @@ func verifResetGlobals() {
 }
 
 func verifItoa(i int) string { return fmt.Sprint(i) }
+
+// verifFreshProcess: the state a new run of the tool starts from. Under the engine every
+// package-level variable of the program is re-initialised (so state hidden in variables the
+// harness does not know about is gone as well); natively the documented option setters are
+// re-applied with their defaults.
+func verifFreshProcess() { verifResetGlobals() }
